@@ -433,8 +433,12 @@ class SparseColumn(FlatColumn):
         if default.dtype.kind == values.dtype.kind:
             dtype = numpy.result_type(default.dtype, values.dtype)
         elif values.dtype.kind in "biuf" and default.dtype.kind in "biuf":
-            if values.dtype.type(self.default_value) == self.default_value:
-                dtype = values.dtype
+            try:
+                if values.dtype.type(self.default_value) == self.default_value:
+                    dtype = values.dtype
+            except (ValueError, OverflowError):
+                # the default (nan, inf, a huge integer) has no counterpart in the values' type
+                pass
         materialized = numpy.full(self.total_length, self.default_value, dtype=dtype)
         materialized[self.indices] = values
         return materialized
